@@ -48,6 +48,17 @@ class BadRepr:
         return self.t
 
 
+class WriteOnly:
+    """a stand-in for sys.stdout that can only be written to"""
+
+    def __init__(self):
+        self.chunks = []
+
+    def write(self, text):
+        self.chunks.append(text)
+        return len(text)
+
+
 class SimBaseExc(BaseException):
     """A BaseException that is neither KeyboardInterrupt nor SystemExit."""
 
@@ -202,7 +213,7 @@ class Peer:
         if kind == 'swap_stdout':
             if self.mode == 'real':
                 self._stdout_was_swapped = True
-                sys.stdout = io.StringIO()
+                sys.stdout = io.StringIO() if f.get('how') != 'writeonly' else WriteOnly()
                 if f.get('how') == 'closed':
                     # ... and the code under test closes its own stream when done
                     sys.stdout.close()
@@ -348,7 +359,7 @@ class Peer:
         elif style == 2 and text.endswith('\n'):
             print(text[:-1])                    # the text, then the line break: two writes
         elif style == 3:
-            out.writelines([text[:3], text[3:]])
+            out.writelines(piece for piece in (text[:3], text[3:]))     # a one-shot iterable
         elif style == 4:
             out.write(text[:2])
             out.flush()
